@@ -24,7 +24,7 @@ CHECK = SessionCheck(
     prop='C07',
     profile=profile,
     monitors=lambda: [CandleMonitor(('C07',))],
-    tiers={'quick': 1200, 'thorough': 100_000},
+    tiers={'quick': 1200, 'thorough': 25_000},
     nontrivial=lambda r: r['counters'].get('c07_forming_reads', 0) > 0,
     rule=('one seed -> one backtest session (1-2 symbols, trading + data routes 1m..1D, warm-up on/off, step or fast '
           'simulator, length not a multiple of the timeframes) with a seeded strategy program; at every strategy hook '
